@@ -368,4 +368,154 @@ theorem crash_allPre (s : AStore) (c : MemStore) (clock : Nat) (hi : Option Nat)
     have := allPre_reset (values s.msgs) (renderH ents) B c.ctime s.sender s.target (clock + 1) hS hT I0
     simpa [values, List.append_assoc] using this
 
+/-! ## from histories to states -/
+
+theorem step_sync (w : FileW) (o : Op) : (w.step o).1.st.sync = w.st.sync := by
+  cases o <;> simp [FileW.step, fileOpPrims, refreshOp, resetOp]
+
+theorem run_sync (ops : List Op) : ∀ w : FileW, (w.run ops).1.st.sync = w.st.sync := by
+  induction ops with
+  | nil => intro w; rfl
+  | cons o os ih => intro w; simp only [FileW.run]; rw [ih, step_sync]
+
+theorem fileR_run_state (ops : List Op) : ∀ (s : AStore) (w : FileW) (hi : Option Nat) (ents : List Ent) (B : Bytes),
+    FileR s w hi ents B → Asc hi ops → FitsRun s ops →
+    ∃ ents' B', FileR (s.run ops).1 (w.run ops).1 (ops.foldl hiAfter hi) ents' B' := by
+  induction ops with
+  | nil => intro s w hi ents B h _ _; exact ⟨ents, B, h⟩
+  | cons o os ih =>
+    intro s w hi ents B h ha hf
+    obtain ⟨ents', B', hR, _⟩ := fileR_step s w hi ents B o h ha.1 hf.1
+    simp only [FileW.run, AStore.run, List.foldl_cons]
+    exact ih _ _ _ _ _ hR ha.2 hf.2
+
+theorem asc_append (ops : List Op) (o : Op) : ∀ hi, Asc hi (ops ++ [o]) → Asc hi ops ∧ ascendingOk (ops.foldl hiAfter hi) o = true := by
+  induction ops with
+  | nil => intro hi h; exact ⟨trivial, h.1⟩
+  | cons p t ih =>
+    intro hi h
+    have := ih _ h.2
+    exact ⟨⟨h.1, this.1⟩, this.2⟩
+
+theorem fitsRun_append (ops : List Op) (o : Op) : ∀ s, FitsRun s (ops ++ [o]) → FitsRun s ops ∧ Fits (((s.run ops).1).step o).1 := by
+  induction ops with
+  | nil => intro s h; exact ⟨trivial, h.1⟩
+  | cons p t ih =>
+    intro s h
+    have := ih _ h.2
+    simp only [AStore.run]
+    exact ⟨⟨h.1, this.1⟩, this.2⟩
+
+/-- the C17 conclusion for the abstract states before and after the interrupted operation -/
+def Conclusion (pre post : AStore) (v : Int × Int × (List Bytes × IterEnd)) : Prop :=
+  Concl (values pre.msgs) (values post.msgs) pre.sender post.sender pre.target post.target v
+
+theorem crash_good (s : AStore) (w : FileW) (hi : Option Nat) (ents : List Ent) (B : Bytes) (o : Op)
+    (h : FileR s w hi ents B) (hsync : w.st.sync = true) (ha : ascendingOk hi o = true) (hfit' : Fits (s.step o).1)
+    (i cut : Nat) (mode : Mode) (hpt : mode = .process → cut = 0) :
+    Conclusion s (s.step o).1 (recoveredView (crashImage ⟨w.fs, w.fs⟩ (fileOpPrims w.st w.fs w.clock o).2.1 i cut mode)) := by
+  obtain ⟨⟨c, sync, opened⟩, fs, clock⟩ := w
+  have hop := h.opened
+  have hfs := h.fs
+  simp only at hsync hop hfs
+  subst hsync; subst hop; subst hfs
+  have hall := crash_allPre s c clock hi ents B o h ha hfit'
+  have ht := allPre_take _ _ _ hall i
+  rw [recoveredView_eq]
+  cases mode with
+  | process => rw [hpt rfl, crashImage_boundary]; exact ht.1
+  | power => rw [crashImage_power]; exact ht.2
+
+/-! ## with syncing on, everything an operation wrote is durable when it returns -/
+
+def Synced (d : DFS) : Prop := d.dur = d.vol
+
+macro "sync_simp" "[" ts:Lean.Parser.Tactic.simpLemma,* "]" : tactic =>
+  `(tactic| (simp [Synced, applyPrimsD, applyPrimD, applyPrim, FS.get, FS.set, goodFS, $ts,*]))
+
+theorem synced_setSeq (g : FS) (f : Ext) (n : Int) : Synced (applyPrimsD ⟨g, g⟩ (setSeqNumPrims true f n)) := by
+  obtain ⟨a, b, c, d, e⟩ := g
+  cases f <;> sync_simp [setSeqNumPrims, syncIf] <;> (try split) <;> simp_all
+
+theorem synced_noop (d : DFS) (ps : List Prim) (hd : Synced d) (h : ∀ p ∈ ps, applyPrimD d p = d) : Synced (applyPrimsD d ps) := by
+  have : applyPrimsD d ps = d := by
+    induction ps with
+    | nil => rfl
+    | cons p t ih =>
+      show applyPrimsD (applyPrimD d p) t = d
+      rw [h p (by simp)]; exact ih (fun q hq => h q (by simp [hq]))
+  rw [this]; exact hd
+
+theorem synced_save (H B line m : Bytes) (ct S T : Nat) (rest : List Prim)
+    (hrest : ∀ g : FS, Synced (applyPrimsD ⟨g, g⟩ rest)) :
+    Synced (applyPrimsD ⟨goodFS H B ct S T, goodFS H B ct S T⟩
+      ([.write .body B.length m, .write .header H.length line, .sync .body, .sync .header] ++ rest)) := by
+  have := hrest (goodFS (H ++ line) (B ++ m) ct S T)
+  simpa [applyPrimsD, applyPrimD, applyPrim, FS.get, FS.set, goodFS, writeAt_end, List.foldl_append] using this
+
+theorem synced_reset (H B : Bytes) (ct S T t : Nat) :
+    Synced (applyPrimsD ⟨goodFS H B ct S T, goodFS H B ct S T⟩
+      (closePrims true ++ removePrims ++ openPrims ++ setSessionPrims true t ++ setSeqNumPrims true .sender 1
+        ++ setSeqNumPrims true .target 1)) := by
+  sync_simp [closePrims, removePrims, openPrims, setSessionPrims, setSeqNumPrims, syncIf]
+
+
+theorem applyPrimsD_vol (ps : List Prim) : ∀ d : DFS, (applyPrimsD d ps).vol = applyPrims d.vol ps := by
+  induction ps with
+  | nil => intro d; rfl
+  | cons p t ih =>
+    intro d
+    show (applyPrimsD (applyPrimD d p) t).vol = applyPrims (applyPrim d.vol p) t
+    rw [ih]
+    cases p <;> simp [applyPrimD, applyPrim]
+
+theorem synced_after (s : AStore) (c : MemStore) (clock : Nat) (hi : Option Nat) (ents : List Ent) (B : Bytes) (o : Op)
+    (h : FileR s ⟨⟨c, true, true⟩, goodFS (renderH ents) B c.ctime s.sender s.target, clock⟩ hi ents B) :
+    Synced (applyPrimsD ⟨goodFS (renderH ents) B c.ctime s.sender s.target, goodFS (renderH ents) B c.ctime s.sender s.target⟩
+      (fileOpPrims ⟨c, true, true⟩ (goodFS (renderH ents) B c.ctime s.sender s.target) clock o).2.1) := by
+  have hS := h.fits.1
+  have hT := h.fits.2.1
+  cases o with
+  | setS n => exact synced_setSeq _ _ _
+  | setT n => exact synced_setSeq _ _ _
+  | incS => exact synced_setSeq _ _ _
+  | incT => exact synced_setSeq _ _ _
+  | save n m =>
+    have := synced_save (renderH ents) B (headerLine (n : Int) B.length m.length) m c.ctime s.sender s.target [] (fun g => rfl)
+    simpa [fileOpPrims, saveMessagePrims, goodFS_header, goodFS_body, len_some, syncBH] using this
+  | saveIncr n m =>
+    have := synced_save (renderH ents) B (headerLine (n : Int) B.length m.length) m c.ctime s.sender s.target
+      (setSeqNumPrims true .sender (c.nextS + 1)) (fun g => synced_setSeq g _ _)
+    simpa [fileOpPrims, saveMessagePrims, goodFS_header, goodFS_body, len_some, syncBH] using this
+  | get b e =>
+    apply synced_noop _ _ (by unfold Synced; rfl)
+    intro p hp
+    apply noop_of _ B c.ctime s.sender s.target true p
+    simp only [fileOpPrims, List.mem_append] at hp
+    rcases hp with h | h <;> simp [h]
+  | iter b e k =>
+    apply synced_noop _ _ (by unfold Synced; rfl)
+    intro p hp
+    apply noop_of _ B c.ctime s.sender s.target true p
+    simp only [fileOpPrims, List.mem_append] at hp
+    rcases hp with h | h <;> simp [h]
+  | refresh =>
+    apply synced_noop _ _ (by unfold Synced; rfl)
+    intro p hp
+    apply noop_of _ B c.ctime s.sender s.target true p
+    simp only [fileOpPrims, refreshOp_prims_good _ _ B c.ctime s.sender s.target _ hS hT, List.mem_append] at hp
+    rcases hp with ((h | h) | h) | h <;> simp [h]
+  | reopen =>
+    apply synced_noop _ _ (by unfold Synced; rfl)
+    intro p hp
+    apply noop_of _ B c.ctime s.sender s.target true p
+    simp only [fileOpPrims, refreshOp_prims_good _ _ B c.ctime s.sender s.target _ hS hT, List.mem_append, closePrims] at hp
+    simp only [closePrims, if_true]
+    rcases hp with h | (((h | h) | h) | h) <;> simp [h] at * <;> simp [h]
+  | reset =>
+    have hrm := apply_remove_all (goodFS (renderH ents) B c.ctime s.sender s.target) true
+    simp only [fileOpPrims, resetOp, hrm, refreshOp_prims_fresh]
+    have := synced_reset (renderH ents) B c.ctime s.sender s.target (clock + 1)
+    simpa [List.append_assoc] using this
+
 end Qfx.Store
